@@ -16,7 +16,7 @@ text = "\n".join(out)
 p = os.path.join(ROOT, "DESIGN.md")
 s = open(p).read()
 if "<!-- MATRIX-BEGIN -->" in s:
-    s = re.sub(r"<!-- MATRIX-BEGIN -->.*?<!-- MATRIX-END -->", "<!-- MATRIX-BEGIN -->\n" + text + "\n<!-- MATRIX-END -->", s, flags=re.S)
+    s = re.sub(r"<!-- MATRIX-BEGIN -->.*?<!-- MATRIX-END -->", lambda m: "<!-- MATRIX-BEGIN -->\n" + text + "\n<!-- MATRIX-END -->", s, flags=re.S)
 else:
     s = s.replace("SEED_MATRIX_TABLE", "<!-- MATRIX-BEGIN -->\n" + text + "\n<!-- MATRIX-END -->")
 open(p, "w").write(s)
